@@ -18,7 +18,7 @@ def rand_plan(rng, calm):
         "onc": "prop" if calm else rng.choice(ONC),
         "ecb": rng.choice(["none", "sync", "async"]) if calm else rng.choice(CB),
         "ccb": rng.choice(["none", "sync", "async"]) if calm else rng.choice(CB),
-        "shape": rng.choice([0, 1, 2]),
+        "shape": rng.choice([0, 1, 2, 3]),
     }
 
 
